@@ -345,7 +345,7 @@ def run_b(case):
         elif lim > 4.0 * (1 + 1e-9):
             cls = f"{mode}:beyond-coupled-limit:{kinds}"
         else:
-            cls = f"{mode}:within-coupled-limit:{kinds}"
+            cls = f"{mode}:within-coupled-limit:{kinds}:limit-value{'>=3.9' if lim >= 3.9 else '<3.9'}-of-4"
         fails.append(dict(sig=f"accepted-medium-grows:{cls}", detail=detail))
     coupling = float(np.max(np.abs(M[: 2 * nf, 2 * nf :]))) > 0
     return dict(ok=not fails, failures=fails, detail=detail, nontrivial=int(coupling), evals=ev + k, states=ev, transitions=ev + k, traces=0, outcome="accepted-bounded" if not fails else "accepted-grows")
